@@ -392,14 +392,20 @@ def arrEnsureLen (C : Ctx) (e : Ty) (es hid : List AS) (n : Nat) : List AS × Li
     else fun a => setModRec (resetAS C a)
   (es' ++ ex.map g, hid', up)
 
+/-- `EnsureLen` of a multimap, one re-exposed / new composite key or value of type `ty`: reset and
+    marked in full; a pointer-stored one that is shared (a frozen dictionary struct left in a hidden
+    element) must not be modified and is replaced by an initialised one of the multimap's own -/
+def mmExpose (C : Ctx) (ty : Ty) (a : AS) : AS :=
+  setModRec (if C.isPtrTy ty && C.canBeShared a then C.init ty else resetAS C a)
+
 /-- `<Multimap>.ensureLen` + the reset of `EnsureLen` -/
 def mmEnsureLen (C : Ctx) (name : String) (ps hid : List (AS × AS)) (k v : Nat) (ml : Bool) (n : Nat) :
     List (AS × AS) × List (AS × AS) × Nat × Nat × Bool × Up :=
   if n ≠ ps.length then
     let (k', v') := changeLen k v ps.length n
     let (kt, vt) := mmapTys C name
-    let fk : AS → AS := if isPrimTy kt then primOnly else fun a => setModRec (resetAS C a)
-    let fv : AS → AS := if isPrimTy vt then primOnly else fun a => setModRec (resetAS C a)
+    let fk : AS → AS := if isPrimTy kt then primOnly else mmExpose C kt
+    let fv : AS → AS := if isPrimTy vt then primOnly else mmExpose C vt
     if n > ps.length then
       let (ex, hid') := expose (n - ps.length) (C.init kt, C.init vt) hid
       (ps ++ ex.map (fun (a, b) => (fk a, fv b)), hid', k', v', true, .loop)
@@ -491,15 +497,32 @@ def copyFieldStep (E : CopyEnv) (fd : Field) (idx oi sp : Nat) (d s : AS) (m p :
     let q := copyFieldPresence E fd idx oi sHas dHas d m p
     copyFieldValue E fd idx sHas (opt && dHas && !sHas) q.1 s q.2.1 q.2.2.1 q.2.2.2 cp
 
-/-- one key or one value of `copy<Multimap>`: primitive - assigned and marked if it differs; composite -
+/-- `SetKey(i, k)` / `SetValue(i, v)` of a multimap whose key / value type `ty` is a dictionary struct
+    (also what `copy<Multimap>` does with such a member): a source that can be shared is assigned by
+    pointer if it differs; an owned one is copied into the current value if it differs, after a shared
+    current value was replaced by an owned, linked copy without marks (`unshare`). `mask` / `bit`: the
+    tracker (`keys` / `vals`) and the element's bit; `cp x` = `copy<T>(x, s)`. `mark<Key|Val>Modified(i)`
+    comes first, so the signals of the unshare copy and of the copy arrive at a bit that is set already
+    and change nothing (`trackerRecv` on a set bit): they are left out. -/
+def setDictElem (C : Ctx) (unshare : Ty → AS → AS × Up) (cp : AS → AS × Up) (ty : Ty) (bit : Nat) (d s : AS) (mask : Nat) :
+    AS × Nat × Up :=
+  if C.canBeShared s then
+    if C.differs s d then (s, (trackerMark mask bit).1, (trackerMark mask bit).2) else (d, mask, .no)
+  else if C.differs d s then
+    ((cp (if C.canBeShared d then (unshare ty d).1 else d)).1, (trackerMark mask bit).1, (trackerMark mask bit).2)
+  else (d, mask, .no)
+
+/-- one key or one value (of type `ty`) of `copy<Multimap>`: primitive - assigned and marked if it
+    differs; dictionary struct - `dst.SetKey(i, src.key)` / `dst.SetValue(i, src.value)`; other composite -
     `if !dst.IsEqual(src) { copy<T>(dst, src) }`. `mask` / `bit`: the tracker (`keys` / `vals`) and the
     element's bit; `cp x` = `copy<T>(x, s)`. Returns the element, the tracker mask, the signal. -/
-def copyKV (E : CopyEnv) (isPrim : Bool) (bit : Nat) (d s : AS) (mask : Nat) (cp : AS → AS × Up) : AS × Nat × Up :=
-  if isPrim then
+def copyKV (E : CopyEnv) (ty : Ty) (bit : Nat) (d s : AS) (mask : Nat) (cp : AS → AS × Up) : AS × Nat × Up :=
+  if isPrimTy ty then
     match s, d with
     | .prim x, .prim y =>
       if !stEq y x then (.prim x, (trackerMark mask bit).1, (trackerMark mask bit).2) else (d, mask, .no)
     | _, _ => (d, mask, .no)
+  else if E.C.isDictTy ty then setDictElem E.C E.unshare cp ty bit d s mask
   else if E.C.differs d s then ((cp d).1, (trackerRecv mask bit (cp d).2).1, (trackerRecv mask bit (cp d).2).2)
   else (d, mask, .no)
 
@@ -508,10 +531,11 @@ def copy0 (E : CopyEnv) : AS → AS → AS × Up
   | dst, .struct _ _ sp _ sfs =>
     match dst with
     | .struct n m p fr dfs =>
-      -- a shared (frozen dictionary) struct is never a copy destination: the struct templates replace
-      -- it first (`unshare`), and a setter on a frozen struct panics. Fail-safe: nothing changes, the
-      -- parent is told (reached only by states Go's type system excludes and by the copies of
-      -- multimap / oneof members that are dictionary structs, which the tie does not cover).
+      -- a shared (frozen dictionary) struct is never a copy destination: the struct, array and
+      -- multimap templates replace it first (`unshare`), and a setter on a frozen struct panics.
+      -- Fail-safe: nothing changes, the parent is told (reached only by states Go's type system
+      -- excludes: a shared struct where the schema has no dictionary-struct type, nesting deeper than
+      -- the schema allows).
       if fr && E.C.isDictName n then (dst, .direct) else
       let fds := fieldsOf E.C n
       let (dfs', m', p', up) := copyFields E fds 0 0 sp dfs sfs m p
@@ -562,7 +586,7 @@ def copy0 (E : CopyEnv) : AS → AS → AS × Up
       let (dps1, dhid1, k1, v1, ml1, up1) :=
         if dps.length ≠ sps.length then mmEnsureLen E.C n dps dhid k v ml sps.length else (dps, dhid, k, v, ml, Up.no)
       let (kt, vt) := mmapTys E.C n
-      let (dps2, k2, v2, up2) := copyPairs E (isPrimTy kt) (isPrimTy vt) 0 dps1 sps k1 v1
+      let (dps2, k2, v2, up2) := copyPairs E kt vt 0 dps1 sps k1 v1
       (.mmap n dps2 dhid1 k2 v2 ml1, up1.join up2)
     | d => (d, .no)
   | dst, .prim _ => (dst, .no)
@@ -624,16 +648,16 @@ def copyElems (E : CopyEnv) (ety : Ty) : Nat → Nat → List AS → List AS →
 termination_by structural _ _ _ ses => ses
 
 /-- the pairs of `copy<Multimap>` (index `i`); threads keys / vals masks -/
-def copyPairs (E : CopyEnv) (kPrim vPrim : Bool) : Nat → List (AS × AS) → List (AS × AS) → Nat → Nat →
+def copyPairs (E : CopyEnv) (kt vt : Ty) : Nat → List (AS × AS) → List (AS × AS) → Nat → Nat →
     List (AS × AS) × Nat × Nat × Up
   | _, dps, [], k, v => (dps, k, v, .no)
   | i, dps, (sk, sv) :: sps, k, v =>
     match dps with
     | [] => ([], k, v, .no)
     | (dk, dv) :: ds =>
-      let rk := copyKV E kPrim (maskForIndex i) dk sk k (fun x => copy0 E x sk)
-      let rv := copyKV E vPrim (maskForIndex i) dv sv v (fun x => copy0 E x sv)
-      let (rest, k'', v'', up') := copyPairs E kPrim vPrim (i + 1) ds sps rk.2.1 rv.2.1
+      let rk := copyKV E kt (maskForIndex i) dk sk k (fun x => copy0 E x sk)
+      let rv := copyKV E vt (maskForIndex i) dv sv v (fun x => copy0 E x sv)
+      let (rest, k'', v'', up') := copyPairs E kt vt (i + 1) ds sps rk.2.1 rv.2.1
       ((rk.1, rv.1) :: rest, k'', v'', (rk.2.2.join rv.2.2).join up')
 termination_by structural _ _ sps _ _ => sps
 end
@@ -723,6 +747,8 @@ inductive Op
   | copyFromSlice (vs : List St)      -- array of primitives: CopyFromSlice(vs)
   | setKey (i : Nat) (v : St)         -- multimap: SetKey(i, v), primitive key
   | setValue (i : Nat) (v : St)       -- multimap: SetValue(i, v), primitive value
+  | setKeyObj (i : Nat) (src : AS)    -- multimap: SetKey(i, k), dictionary-struct key
+  | setValueObj (i : Nat) (src : AS)  -- multimap: SetValue(i, v), dictionary-struct value
   | appendKV (k v : St)               -- multimap of primitives: Append(k, v)
   deriving Inhabited
 
@@ -860,6 +886,20 @@ def applyOp (C : Ctx) (op : Op) (w : AS) : R (AS × Up) :=
         .ok (.mmap n (setNth ps i (a, .prim x)) hid k v' ml, u)
       else .ok (w, .no)
     | _ => .error "setValue: no primitive value at this index"
+  | .setKeyObj i src, .mmap n ps hid k v ml =>
+    if !C.isDictTy (mmapTys C n).1 then .error "setKeyObj: not a dictionary-struct key" else
+    match ps[i]? with
+    | some (a, b) =>
+      let r := setDictElem C C.unshare (fun x => C.copy x src) (mmapTys C n).1 (maskForIndex i) a src k
+      .ok (.mmap n (setNth ps i (r.1, b)) hid r.2.1 v ml, r.2.2)
+    | none => .error "setKeyObj: index out of range"
+  | .setValueObj i src, .mmap n ps hid k v ml =>
+    if !C.isDictTy (mmapTys C n).2 then .error "setValueObj: not a dictionary-struct value" else
+    match ps[i]? with
+    | some (a, b) =>
+      let r := setDictElem C C.unshare (fun x => C.copy x src) (mmapTys C n).2 (maskForIndex i) b src v
+      .ok (.mmap n (setNth ps i (a, r.1)) hid k r.2.1 ml, r.2.2)
+    | none => .error "setValueObj: index out of range"
   | .appendKV x y, .mmap n ps hid k v _ =>
     let (k', v') := changeLen k v ps.length (ps.length + 1)
     .ok (.mmap n (ps ++ [(.prim x, .prim y)]) hid.tail k' v' true, .loop)
